@@ -48,6 +48,29 @@
 (*                  protocol error at either end                           *)
 (*   End            a conversation that was not stopped delivers the whole *)
 (*                  server history (no lost ready signal, no hang)         *)
+(*                                                                         *)
+(* Block pipeline (o.pipe, Config.Pipeline, node-to-client only)           *)
+(*   The roll-forward "callback" is the pipeline's ApplyFunc: the handler  *)
+(*   of a RollForward hands the block to the pipeline (Submit), gives the  *)
+(*   ready signal and returns; the block is applied later, by the          *)
+(*   pipeline's apply goroutine.  o.inpipe is the queue of the blocks      *)
+(*   handed over and not yet applied, o.app says whether an apply is       *)
+(*   running.  The rules become                                            *)
+(*   Order/once/tip every block is applied exactly once, in the order the  *)
+(*                  server sent the RollForwards, with the tip and payload *)
+(*                  of its message, one apply at a time;                   *)
+(*   Drain          the roll-backward callback is entered only when every  *)
+(*                  block of an earlier RollForward has been applied       *)
+(*                  (o.inpipe empty, no apply running) - "in the order the *)
+(*                  server sent them" across the two kinds of callbacks -  *)
+(*                  and no block is applied while it runs;                 *)
+(*   Backpressure   a RollForward frees its request when it is handled     *)
+(*                  (the pipeline does the throttling), a RollBackward     *)
+(*                  when its callback returned;                            *)
+(*   Stop           the pipeline is the application's: blocks handed over  *)
+(*                  before Stop may be applied after Stop returned (the    *)
+(*                  property is silent), but all of them are applied by    *)
+(*                  the End of the conversation.                           *)
 (***************************************************************************)
 EXTENDS Integers, Sequences, FiniteSets, TLC
 
@@ -55,8 +78,13 @@ Max2(a, b) == IF a > b THEN a ELSE b
 
 NoCur == [k |-> "", tip |-> 0, h |-> "", ph |-> "none"]
 
-ObsNew(cfg, dflt) ==
+ObsNew(cfg, dflt, pipe) ==
     [cfg |-> cfg, eff |-> IF cfg = 0 THEN dflt ELSE cfg,
+     pipe |-> pipe,       \* a block pipeline is configured
+     inpipe |-> <<>>,     \* pipeline: blocks handed over by the RollForward handler, not yet applied
+     app |-> "idle",      \* pipeline: idle | cb (the apply callback is running)
+     free |-> 0,          \* requests whose answer no longer holds back the next request: callbacks returned
+                          \* (pipeline: RollForwards handled + roll-backward callbacks returned)
      written |-> 0,       \* RequestNext messages dequeued to the wire
      handled |-> 0,       \* RollForward/RollBackward handled
      ncb |-> 0,           \* callbacks entered
@@ -83,7 +111,7 @@ ObsReq(o) ==
     ELSE LET w == o.written + 1 IN
       IF w - o.handled > o.eff
         THEN Fail(o, "Outstanding: more requests on the wire than the pipeline limit")
-      ELSE IF w - o.cbDone > o.eff
+      ELSE IF w - o.free > o.eff
         THEN Fail(o, "Backpressure: request written before the callback of an answered request returned")
       ELSE [o EXCEPT !.written = w,
                      !.strict = @ \/ (w - o.handled > Max2(o.cfg, 1)),
@@ -110,23 +138,42 @@ ObsHandle(o, mt) ==
     ELSE LET m == Head(o.pend) IN
          IF mt = 1
            THEN [o EXCEPT !.pend = Tail(@), !.cur = NoCur]
+           ELSE IF o.pipe /\ mt = 2
+             THEN [o EXCEPT !.pend = Tail(@), !.handled = @ + 1, !.free = @ + 1,
+                            !.inpipe = Append(@, [tip |-> m.tip, h |-> m.h]),
+                            !.cur = [k |-> m.k, tip |-> m.tip, h |-> m.h, ph |-> "piped"]]
            ELSE [o EXCEPT !.pend = Tail(@), !.handled = @ + 1,
                           !.cur = [k |-> m.k, tip |-> m.tip, h |-> m.h, ph |-> "handled"]]
 
+\* pipeline: the apply callback of a block was entered
+ObsApplyBegin(o, tip, h) ==
+    IF o.app = "cb" THEN Fail(o, "Callback: block applied while the apply of the previous block is still running")
+    ELSE IF o.cur.ph = "cb" THEN Fail(o, "Order: block applied while the roll-backward callback is running")
+    ELSE IF o.inpipe = <<>>
+        THEN Fail(o, "Callback: block applied that no handled RollForward handed to the pipeline (duplicate or spurious)")
+    ELSE IF tip # Head(o.inpipe).tip
+        THEN Fail(o, "Order: the block applied is not the oldest one handed to the pipeline (order or tip)")
+    ELSE IF h # Head(o.inpipe).h THEN Fail(o, "Callback: block/point is not the one the message carried")
+    ELSE [o EXCEPT !.inpipe = Tail(@), !.app = "cb", !.ncb = @ + 1]
+
 ObsCbBegin(o, k, tip, h) ==
     IF ~ObsOK(o) THEN o
+    ELSE IF o.pipe /\ k = "F" THEN ObsApplyBegin(o, tip, h)
     ELSE IF o.stop = "ret" THEN Fail(o, "Callback: invoked after Stop returned")
     ELSE IF o.cur.ph # "handled"
         THEN Fail(o, "Callback: invoked without a RollForward/RollBackward being handled (AwaitReply, duplicate or late)")
     ELSE IF k # o.cur.k THEN Fail(o, "Callback: wrong kind (roll-forward vs roll-backward)")
     ELSE IF tip # o.cur.tip THEN Fail(o, "Callback: tip is not the tip the message carried")
     ELSE IF h # o.cur.h THEN Fail(o, "Callback: block/point is not the one the message carried")
+    ELSE IF o.inpipe # <<>> \/ o.app = "cb"
+        THEN Fail(o, "Drain: roll-backward callback entered before the blocks of the earlier RollForwards were applied")
     ELSE [o EXCEPT !.cur.ph = "cb", !.ncb = @ + 1]
 
 ObsCbEnd(o) ==
     IF ~ObsOK(o) THEN o
+    ELSE IF o.app = "cb" THEN [o EXCEPT !.app = "idle", !.cbDone = @ + 1]     \* pipeline: the apply callback
     ELSE IF o.cur.ph # "cb" THEN Fail(o, "Callback: return without entry")
-    ELSE [o EXCEPT !.cur.ph = "done", !.cbDone = @ + 1]
+    ELSE [o EXCEPT !.cur.ph = "done", !.cbDone = @ + 1, !.free = @ + 1]
 
 ObsStopCall(o) ==
     IF ~ObsOK(o) THEN o
@@ -167,6 +214,8 @@ ObsEnd(o, mode) ==
     ELSE IF o.stop = "called" THEN Fail(o, "End: Stop did not return")
     ELSE IF o.stop = "no" THEN Fail(o, "End: Stop was never called")
     ELSE IF o.cur.ph \in {"handled", "cb"} THEN Fail(o, "End: callback missing or still running")
+    ELSE IF o.inpipe # <<>> \/ o.app = "cb"
+        THEN Fail(o, "End: blocks handed to the pipeline were never applied")
     ELSE IF o.ncb # o.handled \/ o.cbDone # o.handled
         THEN Fail(o, "End: not exactly one callback per RollForward/RollBackward")
     ELSE IF mode = "complete" /\ o.pend # <<>> THEN Fail(o, "End: server messages never handled")
